@@ -386,7 +386,7 @@ def run(ck):
     ck.extra["exhaustive"] = ex_done > 0
     # ---- correspondence with the Coq model ----------------------------------------------------------
     items = []
-    tiny = [("chain", (2.1, 3, 1.1), (4, 1, 1)), ("chain", (1.1, 2, 1.1), (5, 1, 1)), ("chain2", (1.1, 3, 0.6), (2, 1, 1)),
+    tiny = [("chain", (2.1, 3, 1.1), (4, 1, 1)), ("chain", (1.1, 2, 1.1), (5, 1, 1)), ("chain2", (1.1, 3, 0.65), (2, 1, 1)),
             ("sc", (1.01, 2, 1.01), (2, 2, 1)), ("fcc", (0.8, 3, 0.8), (1, 1, 1)), ("chainspec", (1.1, 3, 1.1), (4, 1, 1)),
             ("chain", (2.1, 3, 2.1), (3, 1, 1))]
     for k, (name, setup, sup) in enumerate(tiny[:ck.n(4, 7)] if ck.quick else tiny):
